@@ -131,6 +131,7 @@ func newGrp(name string, n *big.Int) *grp {
 
 var (
 	grpSM2  = newGrp("sm2", ecref.SM2().N)
+	grpSM2A5 = newGrpA5()
 	grpSM9  = newGrp("sm9", ecref.SM9G1().N)
 	grpNIST = newGrp("p256", nistP256().N)
 )
@@ -170,6 +171,9 @@ type opDef struct {
 	expect func(v *big.Int, pre, rest []byte) (exp []byte, extra int, ok bool)
 	// recoverScalar extracts the scalar from the output where that is algebraically possible (diagnostics + sign oracle).
 	recoverScalar func(out []byte) *big.Int
+	// opRejects: the operation itself discards this in-range scalar and returns to the sampling step (SM2 encryption
+	// step A5: the derived mask is all zero). Such a block may be followed by further blocks in a stream.
+	opRejects func(v *big.Int) bool
 
 	maskDone bool
 	mask     []byte
@@ -182,6 +186,9 @@ func (o *opDef) class(v *big.Int) int {
 	}
 	hi := new(big.Int).Sub(o.g.n, big.NewInt(o.hiOff))
 	if v.Cmp(hi) <= 0 {
+		if o.opRejects != nil && o.opRejects(v) {
+			return clsEither // generated both as a block that is passed over and as a last block (the tails follow)
+		}
 		return clsAcc
 	}
 	if o.either && v.Cmp(new(big.Int).Sub(o.g.n, big.NewInt(1))) == 0 {
@@ -790,7 +797,7 @@ func (Prop) SelfTest() error {
 	if err := ecref.SelfTest(); err != nil {
 		return err
 	}
-	for _, g := range []*grp{grpSM2, grpSM9, grpNIST} {
+	for _, g := range []*grp{grpSM2, grpSM2A5, grpSM9, grpNIST} {
 		seen := map[string]bool{}
 		for _, v := range g.vals {
 			if len(v.b) != 32 || seen[string(v.b)] {
